@@ -2,24 +2,37 @@
 and the callers' classification (util.sh step_exec) vs its model (DESIGN.md 7, C13).
 
 Lanes (case['lane']):
-  cmd   robsd-regress-log [-FPSXn] file...            exit + stdout vs model `main`, oracle spec_ok_main
+  cmd   robsd-regress-log [-FPSXn] file...            exit + stdout vs model `main`, oracle spec_ok_main; stderr must be
+        empty.  case['usage']: empty selection or no file - OUTSIDE the property's quantifier ("all 15 non-empty outcome
+        selections, one or several files"): not judged by the oracle, compared with the pinned usage() behaviour
+        (exit 1, nothing on stdout, "usage:" on stderr) and counted under 'outside: ...'
   lib   regress_log_peek / _parse / _trim in process  (harness/rl_harness.c; REGRESS_LOG_NEWLINE and a pre-filled
-        output buffer included) vs model `peek` / `parse` / `trim`, oracle spec_ok_peek
+        output buffer included) vs model `peek` / `parse` / `trim`, oracles spec_ok_peek_exact and spec_ok_trim
   step  the real step_exec of util.sh under bash with a stand-in runner that prints a prepared log and exits with a
-        prepared status (tools/regresslog) vs model `step_exec_exit`; 'late': the pipeline's tee starts 0.2 s late
+        prepared status (tools/regresslog) vs model `step_exec_exit`, and the oracle spec_ok_step (the Hence clause
+        decided on the lines of the log by RLOracles.failing_lineb, not by the model); 'late': the pipeline's tee
+        starts case['late'] seconds late (True = 0.2)
+
+Corpus (corpus/C13/*.json) runs FIRST, the cases that carry a 'finding' key first of all; every `fixed:` / `known`
+entry of known_findings.json for C13 must have such a case, and a missing or empty corpus is an error.
+No verdict is ever gated on known_findings.json here: every oracle verdict is emitted.
 """
-import os, re, subprocess, hashlib
+import os, re, subprocess, hashlib, json, glob
 from concurrent.futures import ThreadPoolExecutor
 import common
 from common import hexs, unhex
 
 TRANSLATORS = ['t_regresslog']
-TRUSTED = ['translator t_regresslog.py (regexes on regress-log.c/.h, robsd-regress-log.c, util-regress.sh, util.sh step_exec, '
-           'regress-html.c parse_run_log, step-exec.h)',
+TRUSTED = ['translator t_regresslog.py (regexes on regress-log.c/.h incl. the whole body of regress_log_trim, robsd-regress-log.c, util-regress.sh, '
+           'util.sh step_exec and the three hand-over lines of step_exec_job, regress-html.c parse_run_log, step-exec.h, report.c '
+           'regress_report_skip_step / regress_report_step_log / number_of_failures_report_status)',
            'modelled, not verified: read(2) of the log files, strstr/strncmp/strlen/memchr of libc, '
            'stdio printf("%s"); getopt flag parsing is exercised and its option table translated, not modelled',
            'step lane: bash in place of ksh, tools/regresslog/fakeexec in place of robsd-exec, tools/regresslog/latetee/tee '
-           '(a tee that starts late) as the adversarial schedule; tee(1) and the pipe are the system\'s']
+           '(a tee that starts late) as the adversarial schedule; tee(1) and the pipe are the system\'s; that the shell waits for the '
+           'last command of a pipeline is assumed (POSIX) and exercised, not proved',
+           'report.c and the orchestrator enter through the models of other areas (Report/ReportDefs.v, Orch/OrchDefs.v, '
+           'Orch/ResumeDefs.v: definitions imported read-only); their correspondence with the code is the business of C05 and C03/C04/C11']
 
 TOOLS = os.path.join(common.VERIF, 'tools', 'regresslog')
 RACE_SIG = 'step-exec-examines-log-before-tee-wrote-it'
@@ -94,10 +107,20 @@ def gen_log(rng, long_ok=True):
 def gen_case(rng):
     fl = rng.randint(1, 15)
     nfiles = rng.choice([1, 1, 1, 2, 3])
+    usage = rng.random() < 0.04
+    if usage:
+        # the usage path: no outcome selected, or no file (the exit status 1 is also "nothing found")
+        if rng.random() < 0.5:
+            fl = 0
+        else:
+            nfiles, fl = 0, rng.randint(0, 15)
     files = []
     for _ in range(nfiles):
-        files.append(None if rng.random() < 0.03 else gen_log(rng))
-    return {'flags': fl, 'doprint': rng.random() < 0.75, 'files': [None if f is None else f.hex() for f in files]}
+        files.append(None if rng.random() < (0.25 if usage else 0.03) else gen_log(rng))
+    c = {'flags': fl, 'doprint': rng.random() < 0.75, 'files': [None if f is None else f.hex() for f in files]}
+    if usage:
+        c['usage'] = True
+    return c
 
 
 def huge_cases(rng, nlines=30):
@@ -116,14 +139,40 @@ def gen_lib_case(rng):
         c['newline'] = rng.random() < 0.5
     if op != 'peek':
         c['prefill'] = rng.choice([b'', b'', b'earlier block\n', b'x', b'\n']).hex()
-    if op == 'trim' and c['file'] is not None and rng.random() < 0.6:
-        # trailing trace blocks, trace lines in the middle
-        body = bytes.fromhex(c['file']) + b''.join(rng.choice([b'+ rm -f x\n', b'done\n', b'+ exit 0\n', b'+ a\n+ b\n'])
-                                                 for _ in range(rng.randint(1, 4)))
+    if op == 'trim' and c['file'] is not None and rng.random() < 0.75:
+        body = bytes.fromhex(c['file'])
+        k = rng.random()
+        if k < 0.4:
+            # trailing trace blocks, trace lines in the middle
+            body += b''.join(rng.choice([b'+ rm -f x\n', b'done\n', b'+ exit 0\n', b'+ a\n+ b\n']) for _ in range(rng.randint(1, 4)))
+        elif k < 0.7:
+            # two SEPARATE trace runs at the end, each of one or more lines: xend must be set at the first line of the
+            # LAST run only (`if (xend == 0)` + the reset on the line between them)
+            run = lambda: b''.join(b'+ ' + rng.choice([b'rm -f x', b'exit 0', b'cd /usr/src', b'FAILED']) + b'\n' for _ in range(rng.randint(1, 3)))
+            body += b'kept 1\n' + run() + rng.choice([b'between\n', b'\n', b'x FAILED\n', b'==== t ====\n']) + run()
+        else:
+            # one trailing run of two or more trace lines after a kept line
+            body += rng.choice([b'last kept line\n', b'\n']) + b''.join(b'+ t%d\n' % i for i in range(rng.randint(2, 4)))
         if rng.random() < 0.3:
             body = body[:-1]
         c['file'] = body.hex()
     return c
+
+
+def trailing_trace_shape(data):
+    """(length of the trailing run of trace lines, is there an earlier trace line after the leading block)"""
+    lines = data.split(b'\n')
+    if lines and lines[-1] == b'':
+        lines.pop()
+    lines = [l.split(b'\x00')[0] for l in lines]
+    i = 0
+    while i < len(lines) and lines[i].startswith(b'+'):
+        i += 1
+    rest = lines[i:]
+    t = 0
+    while t < len(rest) and rest[len(rest) - 1 - t].startswith(b'+'):
+        t += 1
+    return t, any(l.startswith(b'+') for l in rest[:len(rest) - t])
 
 
 def gen_step_case(rng):
@@ -137,6 +186,26 @@ def gen_step_case(rng):
 LATE_CASES = [{'lane': 'step', 'mode': 'robsd-regress', 'rc': 0, 'late': True,
                'log': b'+ make regress\n==== t1 ====\nok\n==== t2 ====\nx FAILED\n'.hex()},
               {'lane': 'step', 'mode': 'robsd-regress', 'rc': 0, 'late': True, 'log': b'y UNEXPECTED_PASS\n'.hex()}]
+
+
+def gen_late_case(rng, big=False):
+    """the input class of the defect repaired in /repo 604d158: a regress step whose runner exits 0 and whose log has its
+    failing line at the very END, examined while a late tee has not written it yet.  Varied: what precedes the failing
+    line (trace block, markers, passing tests, lines of the outcomes that do not count as failure), FAILED or
+    UNEXPECTED_PASS, final newline or not, the delay; big: more than the 64 KiB a pipe holds, so that tee has written all
+    but the tail when the runner exits.  One case in five is a control without a failing line or with a failing runner."""
+    pre = [b'+ make regress'] * rng.randint(0, 2)
+    for i in range(rng.randint(0, 6)):
+        pre.append(rng.choice([b'==== t%d ====' % i, b'===> sub/t%d' % i, b'ok', b'cc -o t t.c', b'', b't%d SKIPPED' % i,
+                               b't%d EXPECTED_FAIL' % i, b'DISABLED', b'+ not a leading trace line', b'almost FAILE D']))
+    if big:
+        pre += [b'filler line %06d ' % i + b'.' * 50 for i in range(1400)]
+    control = rng.random() < 0.2
+    last = rng.choice([b'ok', b'z SKIPPED']) if control else rng.choice(
+        [b'x FAILED', b'FAILED', b'y UNEXPECTED_PASS', b'*** Error 1 in t (FAILED)', b'2 tests: 1 SKIPPED, 1 FAILED'])
+    log = b'\n'.join(pre + [last]) + (b'' if rng.random() < 0.25 else b'\n')
+    return {'lane': 'step', 'mode': 'robsd-regress', 'rc': rng.choice([0, 0, 0, 2]) if control else 0,
+            'late': rng.choice([0.1, 0.2, 0.3]), 'log': log.hex()}
 
 
 def run_driver(path, lines, timeout=900):
@@ -180,8 +249,9 @@ def run_impl(impl, work, idx, case):
         if f is not None:
             open(p, 'wb').write(bytes.fromhex(f))
         paths.append(p)
+    fa = flag_args(case['flags'], case['doprint'])
     try:
-        r = subprocess.run([os.path.join(impl, 'robsd-regress-log'), flag_args(case['flags'], case['doprint'])] + paths,
+        r = subprocess.run([os.path.join(impl, 'robsd-regress-log')] + ([] if fa == '-' else [fa]) + paths,
                            stdout=subprocess.PIPE, stderr=subprocess.PIPE, timeout=60)
         return (r.returncode, r.stdout, r.stderr)
     except subprocess.TimeoutExpired:
@@ -189,17 +259,56 @@ def run_impl(impl, work, idx, case):
 
 
 def load_corpus():
-    import json, glob
+    """corpus/C13/*.json, the cases with a 'finding' key first.  Raises when the directory is missing or empty, and when
+    a `fixed:` / `known` entry of known_findings.json for C13 has no corpus case of its input class: a case whose
+    'finding' is the commit id of the repair (fixed) or the signature (known)."""
+    d = os.path.join(common.VERIF, 'corpus', 'C13')
+    if not os.path.isdir(d):
+        raise RuntimeError('corpus/C13 is missing')
     cases = []
-    for p in sorted(glob.glob(os.path.join(common.VERIF, 'corpus', 'C13', '*.json'))):
-        cases.append(json.load(open(p)))
-    return cases
+    for p in sorted(glob.glob(os.path.join(d, '*.json'))):
+        c = json.load(open(p))
+        c.setdefault('corpus', os.path.basename(p))
+        cases.append(c)
+    if not cases:
+        raise RuntimeError('corpus/C13 is empty')
+    kf = common.load_known()
+    need = []
+    for e in kf.get('fixed', []):
+        m = re.match(r'fixed: property=C13 ([0-9a-f]{7,40})\b', e if isinstance(e, str) else '')
+        if m:
+            need.append(m.group(1))
+    need += [k['signature'] for k in kf.get('known', []) if isinstance(k, dict) and k.get('property') == 'C13']
+    have = {c.get('finding') for c in cases}
+    for n in need:
+        if n not in have:
+            raise RuntimeError('known_findings.json lists C13 %s but corpus/C13 has no case with "finding": "%s"' % (n, n))
+    for c in cases:
+        if c.get('finding') == '604d158' and not (c.get('lane') == 'step' and c.get('late') and c.get('mode') == 'robsd-regress' and c.get('rc') == 0):
+            raise RuntimeError('corpus case %s does not exercise the input class of 604d158 (regress step, runner exits 0, late tee)' % c['corpus'])
+    return sorted(cases, key=lambda c: 0 if c.get('finding') else 1)
+
+
+def stderr_class(err):
+    if not err:
+        return 'empty'
+    return 'usage' if err.startswith(b'usage:') else 'other'
 
 
 def get_impl(ctx):
     if not getattr(ctx, '_c13_impl', None):
         ctx._c13_impl = ctx.build_impl()
     return ctx._c13_impl
+
+
+USAGE_OUTSIDE = 'outside: empty selection or no file (usage path)'
+
+
+def is_usage(c):
+    # Predicate on the CASE.  Outside the property: its quantifier is "all 15 non-empty outcome selections, one or several
+    # files", and "exits 1 if none does" is about a selection that exists.  Such a run is compared with the usage() of
+    # robsd-regress-log.c that t_regresslog.py pins (exit_usage = 1 in C13_source_pins), not judged by spec_ok_main.
+    return c['flags'] == 0 or len(c['files']) == 0
 
 
 def evaluate(ctx, cases, res):
@@ -221,6 +330,14 @@ def evaluate(ctx, cases, res):
         ok = ans[2 * i + 1]
         res.evaluations += 1
         impl_s = '%d %s' % (rc, hexs(out))
+        ec = stderr_class(err)
+        if is_usage(c):
+            res.count(USAGE_OUTSIDE)
+            res.count(USAGE_OUTSIDE + (': no outcome selected' if c['flags'] == 0 else ': no file'))
+            if (rc, out, ec) != (1, b'', 'usage'):
+                res.disagreements.append({'case': c, 'model': '1 - stderr=usage (robsd-regress-log.c usage())',
+                                          'impl': '%s stderr=%s' % (impl_s[:2000], ec), 'via': 'usage path'})
+            continue
         key = hashlib.sha1(repr(c).encode()).hexdigest()
         res.count('exit=%d' % rc)
         res.count('files=%d' % len(c['files']))
@@ -235,6 +352,9 @@ def evaluate(ctx, cases, res):
             res.nontrivial.add(key)
         if m != impl_s:
             res.disagreements.append({'case': c, 'model': m[:2000], 'impl': impl_s[:2000]})
+        if ec != 'empty':
+            # the extractor has no diagnostics of its own outside usage(): an unreadable file is exit 2 without a message
+            res.disagreements.append({'case': c, 'model': 'stderr empty', 'impl': 'stderr=%s %r' % (ec, err[-200:]), 'via': 'stderr'})
         if ok != '1':
             what = 'robsd-regress-log %s: exit %d, output differs from the specified extraction' % (
                 flag_args(c['flags'], c['doprint']), rc)
@@ -289,14 +409,25 @@ def evaluate_lib(ctx, cases, res):
         res.oracle_failures.append({'case': cases[len(outs)] if len(outs) < len(cases) else None, 'signature': 'abnormal-termination',
                                     'what': 'regress-log.c in process: harness died (status %s) at case %d' % (p.returncode, len(outs))})
         return
+    if p.stderr:
+        res.disagreements.append({'case': None, 'model': 'stderr empty', 'impl': repr(p.stderr[-300:]), 'via': 'stderr of the in-process harness'})
     ans = run_driver(drv, qs)
     pk = [(i, c) for i, c in enumerate(cases) if c['op'] == 'peek' and c['file'] is not None]
     oks = run_driver(drv, [' '.join(['okpeek'] + flag_toks(c['flags']) + [outs[i].split()[0], c['file'] or '-'])
                                   for i, c in pk]) if pk else []
     okmap = {i: o for (i, _), o in zip(pk, oks)}
+    tr = [(i, c) for i, c in enumerate(cases) if c['op'] == 'trim' and c['file'] is not None and outs[i].startswith('1 ')]
+    oks = run_driver(drv, ['oktrim %s %s' % (c['file'] or '-', outs[i].split()[1]) for i, c in tr]) if tr else []
+    oktrim = {i: o for (i, _), o in zip(tr, oks)}
     for i, (c, o, m) in enumerate(zip(cases, outs, ans)):
         res.evaluations += 1
         res.count('lib: %s%s' % (c['op'], ' NEWLINE' if c.get('newline') else ''))
+        if c['op'] == 'trim' and c['file'] is not None:
+            t, mid = trailing_trace_shape(bytes.fromhex(c['file']))
+            if t >= 2:
+                res.count('lib: trim, trailing run of >= 2 trace lines')
+            if t >= 1 and mid:
+                res.count('lib: trim, trailing trace run and an earlier separate one')
         if c['file'] is None:
             want = '-1 ' + (c.get('prefill') or '-') if c['op'] == 'parse' else '-1 -'
             if c['op'] == 'trim':
@@ -313,59 +444,95 @@ def evaluate_lib(ctx, cases, res):
             res.disagreements.append({'case': c, 'model': want[:2000], 'impl': o[:2000], 'via': 'in process'})
         if okmap.get(i, '1') != '1':
             res.oracle_failures.append({'case': c, 'signature': 'peek-mismatch', 'impl': o,
-                                        'what': 'regress_log_peek returned %s: not "1 iff a selected line exists after the leading trace block"' % o.split()[0]})
+                                        'what': 'regress_log_peek returned %s: not "1 if a selected line exists after the leading trace block, else 0"' % o.split()[0]})
+        if c['op'] == 'trim' and c['file'] is not None and (oktrim.get(i) != '1'):
+            res.oracle_failures.append({'case': c, 'signature': 'trim-mismatch', 'impl': o[:2000],
+                                        'what': 'regress_log_trim returned %s and wrote something else than the log without its leading and its '
+                                                'trailing block of trace lines' % o.split()[0]})
 
 
 def run_step(impl, work, cases):
+    """[(return value | 'none', 'same' | 'differs' | '?', 'late' | 'sys' | '?')], stderr tail"""
     for i, c in enumerate(cases):
         open(os.path.join(work, '%d.log' % i), 'wb').write(bytes.fromhex(c['log']))
         open(os.path.join(work, '%d.rc' % i), 'w').write('%d\n' % c['rc'])
         open(os.path.join(work, '%d.mode' % i), 'w').write(c['mode'] + '\n')
         late = os.path.join(work, '%d.late' % i)
         if c.get('late'):
-            open(late, 'w').close()
+            open(late, 'w').write('' if c['late'] is True else '%s\n' % c['late'])
         elif os.path.exists(late):
             os.unlink(late)
     r = subprocess.run(['bash', os.path.join(TOOLS, 'step_exec_cases.sh'), impl, work, str(len(cases))],
-                       stdout=subprocess.PIPE, stderr=subprocess.PIPE, timeout=600)
+                       stdout=subprocess.PIPE, stderr=subprocess.PIPE, timeout=900)
     got = {}
     for l in r.stdout.decode('latin1').splitlines():
         t = l.split()
-        if len(t) == 2 and t[0].isdigit():
-            got[int(t[0])] = t[1]
-    return [got.get(i, 'none') for i in range(len(cases))], r.stderr[-300:].decode('latin1')
+        if len(t) == 4 and t[0].isdigit():
+            got[int(t[0])] = (t[1], t[2], t[3])
+    return [got.get(i, ('none', '?', '?')) for i in range(len(cases))], r.stderr[-300:].decode('latin1')
+
+
+def check_tools(res):
+    """a missing stand-in would turn the step lane into a lane without verdicts"""
+    for f in ('fakeexec', 'step_exec_cases.sh', os.path.join('latetee', 'tee')):
+        p = os.path.join(TOOLS, f)
+        if not os.path.isfile(p) or (f != 'step_exec_cases.sh' and not os.access(p, os.X_OK)):
+            res.tie_errors.append('step lane: tools/regresslog/%s is missing or not executable' % f)
+    if not any(os.access(t, os.X_OK) for t in ('/usr/bin/tee', '/bin/tee')):
+        res.tie_errors.append('step lane: no system tee for the late tee to hand over to')
 
 
 def evaluate_step(ctx, cases, res):
-    """step lane: the orchestrator's classification.  The oracle is the Hence clause itself: in regress mode a log
-    with a FAILED / UNEXPECTED_PASS line after the leading trace block gives a non-zero status (the model's
-    regress_failed is proved equivalent to that, C13_hence_regress_failed)."""
+    """step lane: the orchestrator's classification.  Two judges: the model (step_exec_exit: a difference is a
+    disagreement) and, independently of it, the oracle spec_ok_step applied to what the real step_exec returned - the
+    Hence clause itself: in regress mode a log with a FAILED / UNEXPECTED_PASS line after the leading trace block gives
+    a non-zero status, otherwise the runner's status is returned; 'failing' is decided by RLOracles.failing_lineb on the
+    lines of the log (C13_oracles_exact: it is the Prop failing_line, and the oracle accepts the model)."""
     impl = get_impl(ctx)
     drv = ctx.build_driver('rl')
     work = ctx.mkscratch('c13step')
-    qs = []
-    for c in cases:
-        qs.append('stepexec %d %d %s' % (1 if c['mode'] == 'robsd-regress' else 0, c['rc'], c['log'] or '-'))
-        qs.append('stepexec 1 0 %s' % (c['log'] or '-'))
-    ans = run_driver(drv, qs)
     obs, err = run_step(impl, work, cases)
+    qs = []
+    for c, (o, _, _) in zip(cases, obs):
+        rg = 1 if c['mode'] == 'robsd-regress' else 0
+        qs.append('stepexec %d %d %s' % (rg, c['rc'], c['log'] or '-'))
+        qs.append('failing %s' % (c['log'] or '-'))
+        qs.append('okstep %d %d %s %s' % (rg, c['rc'], c['log'] or '-', o if o.isdigit() else '999999'))
+    ans = run_driver(drv, qs)
     for i, c in enumerate(cases):
-        m, failing = ans[2 * i], ans[2 * i + 1] == '1'
-        o = obs[i]
+        m, failing, ok = ans[3 * i], ans[3 * i + 1] == '1', ans[3 * i + 2] == '1'
+        o, same, which = obs[i]
+        regress = c['mode'] == 'robsd-regress'
         res.evaluations += 1
         res.count('step: mode=%s%s%s' % (c['mode'], ' failing-line' if failing else '', ' late-tee' if c.get('late') else ''))
-        if failing and c['mode'] == 'robsd-regress':
-            res.nontrivial.add(hashlib.sha1(repr(c).encode()).hexdigest())
-        if o == m:
+        res.extra['step_lane_cases'] = res.extra.get('step_lane_cases', 0) + 1
+        if c.get('late'):
+            res.extra['late_tee_cases'] = res.extra.get('late_tee_cases', 0) + 1
+            if failing and regress and c['rc'] == 0:
+                res.extra['late_tee_cases_of_the_604d158_class'] = res.extra.get('late_tee_cases_of_the_604d158_class', 0) + 1
+        if o == 'none':
+            # no verdict at all: the stand-in script did not get as far as this case
+            res.tie_errors.append('step lane: no return value observed for case %d (%s): %s' % (i, c.get('corpus', 'generated'), err[-200:]))
             continue
-        lost = failing and c['mode'] == 'robsd-regress' and o == str(c['rc'])
+        if c.get('late') and which != 'late':
+            res.tie_errors.append('step lane: case %d asked for the late tee but step_exec did not run the tee found on PATH '
+                                  '(the adversarial schedule was not exercised)' % i)
+        if failing and regress:
+            res.nontrivial.add(hashlib.sha1(repr(c).encode()).hexdigest())
+        if same != 'same':
+            # what "after the pipeline" is assumed to mean: the file holds everything the runner printed
+            res.disagreements.append({'case': c, 'model': 'the step log equals the output of the runner', 'impl': 'log file %s' % same,
+                                      'via': 'log file after step_exec'})
+        if ok and o == m:
+            continue
+        lost = failing and regress and o == str(c['rc'])
         if lost and c.get('late'):
             # the same case with the system's tee: still wrong means the classification is broken, not the schedule
-            if run_step(impl, work, [dict(c, late=False)])[0][0] != m:
+            if run_step(impl, work, [dict(c, late=False)])[0][0][0] != m:
                 lost = False
         elif lost:
             # the failure was lost: race with tee, or a broken classification?  Three more runs decide.
-            again = [run_step(impl, work, [c])[0][0] for _ in range(3)]
+            again = [run_step(impl, work, [c])[0][0][0] for _ in range(3)]
             if any(a == m for a in again):
                 c = dict(c, flaky=[o] + again)
             else:
@@ -375,37 +542,78 @@ def evaluate_step(ctx, cases, res):
                                         'what': 'step_exec returned %s for a regress step whose complete log has a FAILED/UNEXPECTED_PASS line after the '
                                                 'leading trace block: regress_failed read the log before tee had written it' % o})
             continue
-        res.disagreements.append({'case': c, 'model': m, 'impl': o, 'via': 'step_exec', 'stderr': err})
-        if c['mode'] == 'robsd-regress' and failing and o == '0':
-            res.oracle_failures.append({'case': c, 'signature': 'failed-run-classified-as-passed', 'impl': o,
-                                        'what': 'step_exec returned 0 for a regress step whose log has a FAILED/UNEXPECTED_PASS line after the leading trace block'})
-        elif o in ('0', 'none') and c['rc'] != 0:
-            res.oracle_failures.append({'case': c, 'signature': 'runner-failure-lost', 'impl': o,
-                                        'what': 'step_exec returned %s although the runner exited %d' % (o, c['rc'])})
+        if o != m:
+            res.disagreements.append({'case': c, 'model': m, 'impl': o, 'via': 'step_exec', 'stderr': err})
+        if not ok:
+            if regress and failing:
+                sig, what = 'failed-run-classified-as-passed', ('step_exec returned %s for a regress step whose log has a FAILED/UNEXPECTED_PASS line '
+                                                               'after the leading trace block' % o)
+            elif o == '0':
+                sig, what = 'runner-failure-lost', 'step_exec returned 0 although the runner exited %d' % c['rc']
+            else:
+                sig, what = 'step-exec-status-wrong', ('step_exec returned %s: the runner exited %d and %s' % (
+                    o, c['rc'], 'the log has no failing line' if regress else 'the log does not count in mode %s' % c['mode']))
+            res.oracle_failures.append({'case': c, 'signature': sig, 'impl': o, 'what': what})
+
+
+def step_lane_guards(res):
+    """a lane that produced no verdict is not an evaluation (AGENT_WAVE3 item 5)"""
+    x = res.extra
+    if x.get('step_lane_cases', 0) < 1:
+        res.tie_errors.append('step lane: zero cases')
+    if x.get('late_tee_cases', 0) < 1 or x.get('late_tee_cases_of_the_604d158_class', 0) < 1:
+        res.tie_errors.append('step lane: zero late-tee cases of the class of 604d158 (regress step, runner exits 0, failing line)')
+    d = res.distribution
+    if not any(k.startswith('lib: trim') for k in d):
+        res.tie_errors.append('lib lane: zero trim cases')
+    if d.get('lib: trim, trailing run of >= 2 trace lines', 0) < 1 or d.get('lib: trim, trailing trace run and an earlier separate one', 0) < 1:
+        res.tie_errors.append('lib lane: no trim case with a trailing trace run of two lines / with two separate trace runs')
+    if not any(k.startswith('lib: peek') for k in d) or not any(k.startswith('lib: parse') for k in d):
+        res.tie_errors.append('lib lane: zero peek or parse cases')
 
 
 def run(ctx, n=None):
     res = common.Result()
     res.rule = ('logs generated from the line kinds the property lists (trace lines, markers and near-miss markers incl. the " =" scan quirk, '
                 'outcome keywords and keyword-like substrings, two keywords on a line, NUL bytes, CR / CRLF line ends, empty lines, lines of 1 KiB to 1 MiB, '
-                'with/without final newline), 1-3 files, all 15 selections, print/no-print through the command; the library entry points '
-                'peek/parse(+NEWLINE, pre-filled buffer)/trim in process; util.sh step_exec with a stand-in runner in regress and other modes, '
-                'also with a late tee; non-trivial = exit 0 (result > 0, failing regress step) and a marker-like line present; distinct by content hash')
+                'with/without final newline), 1-3 files, all 15 selections, print/no-print through the command (stderr compared: empty), plus the usage '
+                'path (empty selection / no file; outside the property, compared with the pinned usage()); the library entry points '
+                'peek/parse(+NEWLINE, pre-filled buffer)/trim in process (trim: trailing trace runs of 1-4 lines, two separate runs); util.sh step_exec '
+                'with a stand-in runner in regress and other modes, also with a late tee on generated logs that end in a failing line; '
+                'non-trivial = exit 0 (result > 0, failing regress step) and a marker-like line present; distinct by content hash')
     quick = n is None and ctx.tier != 'thorough'
     n = n or ctx.budget(1500, 60000)
     cases = load_corpus()
-    ccases = [c for c in cases if c.get('lane', 'cmd') == 'cmd'] + huge_cases(ctx.rng, 30 if quick else 300) + [gen_case(ctx.rng) for _ in range(n)]
-    res.samples = ccases[:1]
-    res.assumptions = ['bytes 0..255 only; files up to ~25 lines plus single lines up to 1 MiB in the correspondence (the theorems have no bound)']
+    check_tools(res)
+    # ---- the corpus first; within it the cases of known / repaired findings first (load_corpus sorts them so)
+    for lane, ev in (('step', evaluate_step), ('lib', evaluate_lib), ('cmd', evaluate)):
+        cc = [c for c in cases if c.get('lane', 'cmd') == lane]
+        if cc:
+            res.count('corpus: %s lane' % lane, len(cc))
+            ev(ctx, cc, res)
+    res.samples = [c for c in cases if c.get('finding')][:1]
+    # ---- cmd
+    ccases = huge_cases(ctx.rng, 30 if quick else 300) + [gen_case(ctx.rng) for _ in range(n)]
+    res.samples += ccases[2:3]
+    res.assumptions = ['bytes 0..255 only; files up to ~25 lines plus single lines up to 1 MiB in the correspondence (the theorems have no bound)',
+                       'step lane: "the shell waits for the last command of the pipeline" is exercised under bash with the system tee and a late one, '
+                       'not proved; the log file is compared with the runner\'s output after every step_exec']
     chunk = 20000
     for i in range(0, len(ccases), chunk):
         evaluate(ctx, ccases[i:i + chunk], res)
-    lcases = [c for c in cases if c.get('lane') == 'lib'] + [gen_lib_case(ctx.rng) for _ in range(max(300, n // 3))]
+    if not res.distribution.get(USAGE_OUTSIDE):
+        res.tie_errors.append('cmd lane: zero usage-path cases')
+    # ---- lib
+    lcases = [gen_lib_case(ctx.rng) for _ in range(max(300, n // 3))]
     res.samples.append(lcases[0])
     evaluate_lib(ctx, lcases, res)
-    scases = [c for c in cases if c.get('lane') == 'step'] + LATE_CASES + [gen_step_case(ctx.rng) for _ in range(40 if quick else min(600, n // 50))]
-    res.samples.append(scases[0])
+    # ---- step
+    nlate = 8 if quick else 40
+    scases = (LATE_CASES + [gen_late_case(ctx.rng) for _ in range(nlate)] + [gen_late_case(ctx.rng, big=True) for _ in range(1 if quick else 4)]
+              + [gen_step_case(ctx.rng) for _ in range(40 if quick else min(600, n // 50))])
+    res.samples.append(scases[2])
     evaluate_step(ctx, scases, res)
+    step_lane_guards(res)
     res.traces_validated = res.evaluations
     return res
 
